@@ -1252,7 +1252,11 @@ def special_case(name: str) -> List[Dict[str, Any]]:
         dg, _ = observe_digest(sspec, "M", "run", None, sdel, expect={"ok": True})
     elif name == "requeue":
         rspec, rdel = spec_requeue_timeout()
-        dg, _ = observe_digest(rspec, "M", "run", None, rdel, expect={"ok": True, "requeue_timeout": True}, timeout=60.0)
+        for attempt in range(2):
+            dg, _ = observe_digest(rspec, "M", "run", None, rdel, expect={"ok": True, "requeue_timeout": True}, timeout=60.0)
+            # a run that succeeded WITHOUT the put-back + timeout (the machine stalled for seconds) shows nothing: observe once more
+            if "observe_error" in dg or dg["case"]["status"] != "ok" or dg["requeue_then_timeout"]:
+                break
     elif name.startswith("slow:"):
         pause = float(name.split(":")[1])
         dg, _ = observe_digest(spec_slow_consumer(), "M", f"stream:pause:{pause:g}:1", None, None,
